@@ -15,6 +15,7 @@ THEOREMS = ['Crop.c09_stream_partial', 'Crop.c09_unshuffle_positions', 'Crop.c09
             'Reaper.reaperFiles_eq', 'Reaper.reapStep_refines', 'Reaper.reapStream_refines', 'Reaper.session_eq',
             'Reaper.session_refines', 'Reaper.reaper_kth_call', 'Reaper.reaper_exit_iff', 'Reaper.reaperLoad_missing_default',
             'Reaper.reaperLoadFn_present', 'Reaper.reaperStream_default_total', 'Reaper.reapCombos_reaper_args',
+            'Reaper.reaperLoadFn_missing_default', 'Reaper.reaperLoad_none', 'Reaper.reaperLoad_empty',
             'Crop.c09_stream_partial_src', 'Crop.c09_session_partial_src', 'Crop.c09_call_partial_src']
 ANCHORS = ['isReady', 'cleanUpDefault', 'sowerGetsExtra', 'sowerFlush', 'nbFromBs', 'capNb', 'bsOfNb', 'remOfNb',
            'calcCleanUp', 'checkReady', 'reaperUseDefault',
